@@ -15,19 +15,22 @@ Plan gen_c21(sk::Rng& r, Tier) {
     Plan p;
     gen_rig_knobs(p, r);
     p.knobs["lat_max_us"] = r.pick<std::int64_t>({0, 0, 200, 2000});
-    p.knobs["interval"] = r.pick<std::int64_t>({1, 2, 5, 15});
-    p.knobs["burst"] = r.pick<std::int64_t>({1, 2, 4});
-    p.knobs["window"] = r.pick<std::int64_t>({5, 20, 120});
+    // mostly small values (many boundary crossings per run), sometimes degenerate or beyond the one-hour window cap
+    p.knobs["interval"] = r.chance(1, 6) ? r.pick<std::int64_t>({0, -3, 4000, 7200}) : r.pick<std::int64_t>({1, 2, 5, 15});
+    p.knobs["burst"] = r.chance(1, 10) ? 0 : r.pick<std::int64_t>({1, 2, 4});
+    p.knobs["window"] = r.chance(1, 8) ? r.pick<std::int64_t>({0, 5000}) : r.pick<std::int64_t>({5, 20, 120});
     p.knobs["difficulty"] = r.pick<std::int64_t>({0, 0, 4, 8});
     p.knobs["min_ttl"] = r.pick<std::int64_t>({5, 30});
     p.knobs["peers"] = r.range(1, 3);
-    const std::int64_t I = p.knobs["interval"], W = std::max(p.knobs["window"], p.knobs["interval"]);
+    const std::int64_t I = std::max<std::int64_t>(p.knobs["interval"], 1), W = std::max(std::max<std::int64_t>(p.knobs["window"], 1), I);
+    const bool long_interval = I > 3000;
     const int n = static_cast<int>(r.range(3, 22));
     for (int i = 0; i < n; ++i) {
         Op op;
         op.k = "announce";
         const std::int64_t kind = r.chance(3, 5) ? 0 : r.range(1, kKinds - 1);
-        const std::int64_t gap = r.pick<std::int64_t>({0, 50, I * 1000 - 300, I * 1000 + 300, I * 500, W * 1000 - 300, W * 1000 + 300, 1000, 120300, 119000, 180500, 179000, 61000, 302000});
+        std::int64_t gap = r.pick<std::int64_t>({0, 50, I * 1000 - 300, I * 1000 + 300, I * 500, W * 1000 - 300, W * 1000 + 300, 1000, 120300, 119000, 180500, 179000, 61000, 302000});
+        if (long_interval && r.chance(1, 2)) gap = r.pick<std::int64_t>({3599000, 3600300, 3700000, I * 1000 - 300, I * 1000 + 300, 1800000});
         op.a = {static_cast<std::int64_t>(r.below(3)), static_cast<std::int64_t>(r.below(4)), kind, gap, r.pick<std::int64_t>({3, 4, 4}), static_cast<std::int64_t>(r.below(3))};
         p.ops.push_back(op);
     }
@@ -50,9 +53,14 @@ void exec_c21(const Plan& p, Ctx& ctx) {
     c.fetch_retry_attempt_limit = 1;
     Rig rig;
     rig.start_node(c, 5000);
-    const std::int64_t interval = rig.node.cfg.announce_min_interval.count() < 1 ? 1 : p.knob("interval", 15);
-    const std::int64_t window = std::max(p.knob("window", 120), interval);
-    const std::size_t burst = static_cast<std::size_t>(std::max<std::int64_t>(p.knob("burst", 4), 1));
+    // the limits the node itself reports after sanitising its configuration
+    std::int64_t interval = 1, window = 1; std::size_t burst = 1;
+    rig.node.run([&](en::Node& n) { interval = n.config().announce_min_interval.count(); window = n.config().announce_burst_window.count(); burst = n.config().announce_burst_limit; });
+    if (interval < 1 || burst < 1 || window < 1) ctx.violate("C21.throttle_disabled_by_configuration", fmt("the node reports an announce throttle of interval %lld s, burst %zu, window %lld s for configured %lld/%lld/%lld", (long long)interval, burst, (long long)window, (long long)p.knob("interval"), (long long)p.knob("burst"), (long long)p.knob("window")));
+    if (interval < p.knob("interval")) ctx.violate("C21.configured_interval_not_honoured", fmt("configured minimum interval %lld s, the node enforces %lld s", (long long)p.knob("interval"), (long long)interval));
+    interval = std::max<std::int64_t>(interval, std::max<std::int64_t>(p.knob("interval"), 1));
+    window = std::max<std::int64_t>(window, 1);
+    burst = std::max<std::size_t>(burst, 1);
     const int npeers = static_cast<int>(p.knob("peers", 2));
     for (int i = 0; i < npeers; ++i) if (rig.add_peer(static_cast<std::uint8_t>(0x61 + i)) < 0) { ctx.violate("C21.setup_failed", "scripted handshake failed"); rig.stop(); return; }
     std::vector<std::vector<Obs>> history(static_cast<std::size_t>(npeers));
@@ -74,12 +82,20 @@ void exec_c21(const Plan& p, Ctx& ctx) {
     };
 
     std::uint64_t uniq = 1;
+    std::vector<std::int64_t> connected_at(static_cast<std::size_t>(npeers), sk::now_ns());
     for (auto& op : p.ops) {
         ++ctx.ops_done;
         const int pi = static_cast<int>(op.at(0)) % npeers;
         RigPeer& peer = *rig.peers[static_cast<std::size_t>(pi)];
         const int kind = static_cast<int>(op.at(2));
         sk::sleep_ns(op.at(3) * kMs);
+        // the node rotates session keys (at most hourly); a scripted peer does not follow rotations, it re-establishes its
+        // session instead (the announce history and lock-out of a peer are kept per peer id, not per session)
+        if (sk::now_ns() - connected_at[static_cast<std::size_t>(pi)] > 3000 * kSec) {
+            if (!rig.reconnect(pi)) { ctx.violate("C21.session_lost", "an honest peer could not re-establish its session: " + peer.conn.last_error); break; }
+            connected_at[static_cast<std::size_t>(pi)] = sk::now_ns();
+            ctx.probe("reconnected_after_long_gap");
+        }
         const en::ChunkId chunk = make_id(static_cast<std::uint8_t>(0x10 + op.at(1)), 0x71);
         // build the announce
         pr::Manifest m = make_manifest(chunk, 3, 2, (p.knob("min_ttl", 30) + 600) * kSec);
